@@ -57,7 +57,7 @@ CLAIMED = {
         "the body into consecutive chunks of any sizes whatsoever (boundaries inside tokens, time stamps, comments, directly before or "
         "after a newline, chunks holding no time stamp), the model of read_values' multi-threaded branch (determine_thread_chunks, "
         "run_chunk per chunk with parse_body's skip-to-newline and stop rule, Encoder::append in order, finish) and of its "
-        "single-threaded branch yield stores from which every bit-vector signal reports the same changes, although the blocks differ. "
+        "single-threaded branch yield equal time tables and stores from which every bit-vector signal reports the same changes, although the blocks differ. "
         "Steps, all pinned: thread_first / thread_later (which lines a thread started at a byte offset parses), ops_tile (the threads' "
         "pieces tile the sequential operation list without gap or overlap), rec_concat, appended_transparent(_rs), chunks_shape "
         "(determine_thread_chunks yields consecutive chunks covering the body). For arbitrary layouts handover_segment / chunk_simulates "
@@ -118,7 +118,9 @@ CLAIMED = {
         "finding D9), prefix property of table and changes, exact restriction at line boundaries. Coq theorems pinned in Properties/C15.v "
         "state the property for cuts where no token is pending: prefix_events / cut_at_token_boundary (parser), "
         "prefix_history_prefix_report (store: a history that is a prefix of another is reported as a prefix - time table and every "
-        "bit-vector signal) and truncated_vcd_prefix_report (their composition for the single-threaded loader).",
+        "bit-vector signal), truncated_vcd_prefix_report (their composition for the single-threaded loader) and truncated_at_line_end "
+        "(the line-boundary clause from the text: a body written one token group per line and cut at the end of a line loads as exactly "
+        "the meaning of the lines present - time table and every bit-vector variable - and as a prefix of the complete load).",
    design_ref="DESIGN.md section 6, C15",
    note="Trusted: Coq kernel, extraction (ExtrOcamlBasic), OCaml driver incl. float_of_string as f64 parser and identity as LZ4, Rust harness, generators and the Python oracle computed from the abstract history. Cuts inside a token, real/string variables and the multi-threaded path are decided by the enumeration only.",
    technique="fault enumeration over all cut points; correspondence with the Coq model extracted to OCaml + prefix oracle; Coq theorems for cuts at token boundaries"),
